@@ -349,15 +349,15 @@ func triStr(t uint8) string {
 // lessAdapter: a sort adapter of the library whose Less evaluates an
 // expression reference (it has an ASTNode field).
 type lessAdapter struct {
-	less     *ssa.Function
-	named    *types.Named
-	st       *types.Struct
-	latch    int                     // index of the failure latch field (bool or error), -1 if none
-	latchPath []int // the same as a path through embedded structs (nil: the latch is field `latch` itself)
-	latchErr bool                    // the latch is error-typed
-	fnFields []int                   // indices of func-typed fields
-	configs  []map[int]*ssa.Function // assignments of library functions to those fields that occur together (same block, same object)
-	opaque   bool                    // a function value that is not a named library function: not decided
+	less      *ssa.Function
+	named     *types.Named
+	st        *types.Struct
+	latch     int                     // index of the failure latch field (bool or error), -1 if none
+	latchPath []int                   // the same as a path through embedded structs (nil: the latch is field `latch` itself)
+	latchErr  bool                    // the latch is error-typed
+	fnFields  []int                   // indices of func-typed fields
+	configs   []map[int]*ssa.Function // assignments of library functions to those fields that occur together (same block, same object)
+	opaque    bool                    // a function value that is not a named library function: not decided
 	// a function literal handed to sort.Slice / sort.SliceStable: the adapter's
 	// state is the literal's captured variables (latch = index of the captured
 	// failure flag)
